@@ -8,6 +8,7 @@ from ..engine import AnalysisError, MechanismMissing, PropertySpec, norm
 from ..pyutil import call_name, calls, dotted, is_name, walk_local
 
 AST = "src/pymoca/ast.py"
+TREE_PY = "src/pymoca/tree.py"
 PARSER = "src/pymoca/parser.py"
 
 SPEC = PropertySpec(
@@ -428,6 +429,31 @@ def r06_12(ctx, rep):
                "%s — the method edits a node other than the one it was called on" % "; ".join(foreign[:3]))
     if n < 6:
         raise MechanismMissing(R, "fewer than 6 add_*/remove_* methods found on ast.Class")
+
+
+@SPEC.rule(
+    "R06.13",
+    "nodes are adopted or deep-copied, never cloned flat: outside the copy hooks themselves (`__deepcopy__` / `__copy__`) ast.py and tree.py do "
+    "not call copy.copy() — a shallow copy of a node shares every child list with the original and carries the per-instance `__deepcopy__` "
+    "shadow an earlier deep copy may have left on it, so a later deepcopy of the clone copies the wrong node",
+)
+def r06_13(ctx, rep):
+    R = "R06.13"
+    n = 0
+    for rel in (AST, TREE_PY):
+        mod = ctx.module(rel, R)
+        hits = []
+        for fn in [f for f in ast.walk(mod) if isinstance(f, ast.FunctionDef)]:
+            n += 1
+            if fn.name in ("__deepcopy__", "__copy__"):
+                continue
+            for c in calls(fn):
+                if call_name(c) in ("copy.copy", "copy") and c.args and not (call_name(c) == "copy" and not any(
+                        isinstance(i, ast.ImportFrom) and i.module == "copy" and any(a.name == "copy" for a in i.names) for i in mod.body)):
+                    hits.append("%s line %d: %s" % (fn.name, c.lineno, norm(c)[:50]))
+        rep.ob(R, rel, "no shallow copy of a node", not hits, "; ".join(hits[:3]))
+    if n < 40:
+        raise MechanismMissing(R, "fewer than 40 functions scanned in ast.py / tree.py")
 
 
 # -- seeded variants ---------------------------------------------------------
